@@ -101,6 +101,4 @@ def parseNRes : List String → NRes
   | ["status", n] => .status n.toNat!
   | _ => .keyError
 
-def svcObs (s : Svc) : List VarObs := s.vars.map fun v => (v.decl.name, v.st.stored.read, v.st.updated)
-
 end Upnp.C10Proto
